@@ -313,7 +313,7 @@ def execute(scn, ctx):
     is_group = spec.get("kind") == "group"
     build = M.build_group_scores if is_group else M.build_scores
     src, callers = build(spec)
-    cfp = M.fingerprint(list(callers.values()))
+    cfp = callers.fp0
     viol, trace, sig = [], [], []
     probes, faults = {}, {}
     n_draws = n_forced = n_lines = 0
